@@ -1,7 +1,7 @@
 (* C26 -- StatCalculator (Welford) over the rationals: exact mean and unbiased variance. *)
 From Coq Require Import List ZArith Bool Lia ZifyBool QArith Qcanon Field.
 Import ListNotations.
-Require Import NV.C26.Prelude NV.C26.Gen_helpers NV.C26.Model.
+Require Import NV.C26.Prelude NV.C26.Gen_helpers NV.C26.Model NV.C26.ProofsTree.
 
 Definition qofZ (z : Z) : Qc := Q2Qc (inject_Z z).
 Definition qc_ops : fops Qc := mk_fops Qc 0%Qc 1%Qc Qcplus Qcminus Qcmult Qcdiv qofZ.
@@ -143,4 +143,15 @@ Proof.
   change (NV.C23.Model.seq_sum Qc (o_add Qc qc_ops) [x]) with (Some x).
   cbn [bind o_div o_mul o_ofZ qc_ops]. change (Z.of_nat 1) with 1%Z. rewrite qofZ_1, qofZ_0.
   f_equal. f_equal; field; discriminate.
+Qed.
+
+(* average: the pairwise tree of allreduce_sum (C23) over the rationals is the plain sum *)
+Lemma fold_left_qsum t : forall x, fold_left Qcplus t x = x + qsum t.
+Proof. unfold qsum. induction t as [|y t IH]; intros x; cbn; [ring|]. rewrite IH. ring. Qed.
+
+Lemma average_spec xs : xs <> [] -> average Qc qc_ops xs = Ret (qsum xs / qlen xs).
+Proof.
+  intros Hne. unfold average. cbn [o_add o_div o_ofZ qc_ops].
+  rewrite (seq_sum_assoc Qc Qcplus Qcplus_assoc xs Hne).
+  destruct xs as [|x t]; [contradiction|]. cbn [sumne]. rewrite fold_left_qsum. reflexivity.
 Qed.
